@@ -244,6 +244,37 @@ def main():
         print("sites per category:", tot)
         print("selected:", cats, "total", len(sel))
         return
+    if cmd == "retry":
+        # tools/mutants.py retry 0 <in.jsonl> <out.jsonl> <path-substring> <check> [<check>...]
+        # re-runs recorded survivors whose path contains the substring against the given checks (after strengthening)
+        src, dst, sub, checks = sys.argv[3], sys.argv[4], sys.argv[5], sys.argv[6:]
+        d = os.path.join(SCRATCH + "_retry", "w0")
+        shutil.rmtree(d, ignore_errors=True)
+        os.makedirs(d)
+        shutil.copytree(os.path.join(REPO, "armulator"), os.path.join(d, "armulator"), ignore=shutil.ignore_patterns("__pycache__"))
+        with open(dst, "a") as fo:
+            for l in open(src):
+                rec = json.loads(l)
+                m = tuple(rec["mutant"])
+                if rec["result"] != "survived" or sub not in "%s:%d" % (m[0], m[1]):
+                    continue
+                apply(d, m)
+                try:
+                    rec["result"] = "survived"
+                    for cid in checks:
+                        env = dict(os.environ, ARMMC_REPO=d, ARMMC_OUT=os.path.join(SCRATCH + "_retry", "out"))
+                        r = subprocess.run(["/verif/check", cid], cwd="/verif", env=env, capture_output=True, text=True)
+                        keys = [x.strip()[5:] for x in r.stdout.splitlines() if x.strip().startswith("key:")]
+                        rec.setdefault("retry", []).append([cid, "VIOLATION" if "VIOLATION property=" in r.stdout else "rc=%d" % r.returncode, keys[:2]])
+                        if "VIOLATION property=" in r.stdout:
+                            rec["result"] = "killed-by %s (after strengthening)" % cid
+                            break
+                finally:
+                    restore(d, m)
+                fo.write(json.dumps(rec) + "\n")
+                print("%s:%d %r->%r  %s" % (m[0], m[1], m[4], m[5], rec["result"]), flush=True)
+        shutil.rmtree(SCRATCH + "_retry", ignore_errors=True)
+        return
     out = sys.argv[3]
     offset = int(sys.argv[4]) if len(sys.argv) > 4 else 0
     done = set()
